@@ -247,6 +247,7 @@ theorem expand_eval (c : CDS) (h : WFCDS c)
     (lo hi : Nat) (hw : lo < hi) (hseq : ∀ s, c.seq = some s → hi ≤ s.length)
     (hsome : (bases c.loc).filter (inW lo hi) ≠ []) :
     ∃ (Bf In Af : List Nat), bases c.loc = Bf ++ In ++ Af ∧
+      Bf = (bases c.loc).filter (beforeW c.loc.strand lo hi) ∧
       (∀ x ∈ Bf, inW lo hi x = false) ∧ (∀ x ∈ In, inW lo hi x = true) ∧ (∀ x ∈ Af, inW lo hi x = false) ∧
       In ≠ [] ∧
       (3 * ((Bf.length + In.length + 2) / 3) ≤ (bases c.loc).length →
@@ -288,9 +289,19 @@ theorem expand_eval (c : CDS) (h : WFCDS c)
     simp only [List.mem_filter] at hx
     have := hx.2; unfold inW at this; simp at this; omega
   -- parts of the clamped window
-  obtain ⟨W, Bf, In, Af, hsplit, _, hB, hI, hA, hW1, hW2, hW3, hW4, hWb, _⟩ :=
+  obtain ⟨W, Bf, In, Af, hsplit, hBfdef, hB, hI, hA, hW1, hW2, hW3, hW4, hWb, _⟩ :=
     window_parts c L (by rw [hcst]; exact hdir) hLne hpos hasc lo' hi' hw' (by rw [hcst]; exact hsome')
-  rw [hcst] at hsplit hW1 hWb
+  rw [hcst] at hsplit hW1 hWb hBfdef
+  have hBfdef' : Bf = (bases ⟨L, st⟩).filter (beforeW st lo hi) := by
+    rw [hBfdef]
+    apply List.filter_congr
+    intro x hx
+    have := hspan x hx
+    unfold beforeW
+    rw [← hlo', ← hhi']
+    split
+    · by_cases h1 : x < lo <;> simp [h1] <;> omega
+    · by_cases h1 : hi ≤ x <;> simp [h1] <;> omega
   have hInne : In ≠ [] := by
     intro h0
     apply hsome'
@@ -303,7 +314,7 @@ theorem expand_eval (c : CDS) (h : WFCDS c)
     · exact Or.inl (Or.inl h)
     · exact Or.inl (Or.inr h)
     · exact Or.inr h
-  refine ⟨Bf, In, Af, hsplit,
+  refine ⟨Bf, In, Af, hsplit, hBfdef',
     fun x hx => by rw [hsame x (hmemK x (Or.inl hx))]; exact hB x hx,
     fun x hx => by rw [hsame x (hmemK x (Or.inr (Or.inl hx)))]; exact hI x hx,
     fun x hx => by rw [hsame x (hmemK x (Or.inr (Or.inr hx)))]; exact hA x hx, hInne, ?_⟩
@@ -311,7 +322,7 @@ theorem expand_eval (c : CDS) (h : WFCDS c)
   generalize hd : Bf.length = d at htail ⊢
   generalize hm : In.length = m at htail ⊢
   have hmpos : 0 < m := by rw [← hm]; exact List.length_pos_iff.mpr hInne
-  generalize hK : bases ⟨L, st⟩ = K at hsplit htail hspan hsame hmemK ⊢
+  generalize hK : bases ⟨L, st⟩ = K at hsplit htail hspan hsame hmemK hBfdef hBfdef' ⊢
   have hKpw : K.Pairwise (PosLt st) := by
     rw [← hK, bases_scanOrder L st hdir]
     exact readScan_pairwise st _ (scanOrder_before L st hdir hasc)
@@ -391,12 +402,122 @@ theorem expand_eval (c : CDS) (h : WFCDS c)
     rw [if_neg hcond]
     have hA1 : (d : Int) - (d : Int) % 3 = ((a : Nat) : Int) := by omega
     have hA2 : ((d + m : Nat) : Int) + (-((d + m : Nat) : Int)) % 3 = ((b : Nat) : Int) := by omega
-    rw [hA1, hA2, hF1]
+    rw [hA1, hA2, hF1, hFe]
     simp [locStart_toSingleIfOne, locEnd_toSingleIfOne, pure, Except.pure]
   · exact (hs3 f0.1 hs1).2
   · -- the span stays inside the CDS span
     have hmem : maxEnd F - 1 ∈ K := List.mem_of_mem_drop (List.mem_of_mem_take hs2)
     have hlt := (hspan _ hmem).2
     exact Nat.le_of_pred_lt hlt
+
+theorem spec_window_fun_any (lo hi : Nat) :
+    (fun cod : List Nat => if true = true then cod.any (inWin (lo : Int) (hi : Int))
+      else cod.all (inWin (lo : Int) (hi : Int))) = (fun t => t.any (inW lo hi)) := by
+  funext cod
+  simp only [if_true]
+  congr 1
+  funext p
+  exact inWin_eq_inW lo hi p
+
+/-- `expand=True` is the plain window `[s, e)` computed by `_expand_coordinates_to_codons` -/
+theorem scan_expand_eq (c : CDS) (lo hi : Int) (s e : Int)
+    (h : expandCoordinatesToCodons c lo hi = .ok (s, e)) :
+    scanChromosomeCodonLocations c (some ⟨some lo, some hi, true⟩) =
+      scanChromosomeCodonLocations c (some ⟨some s, some e, false⟩) := by
+  unfold scanChromosomeCodonLocations convertWindow
+  simp [h, bind, Except.bind, pure, Except.pure]
+
+/-- **C05-T5, `expand_window_to_partial_codons=True`**: on a CDS read in one uninterrupted frame 0
+    (`cdsKept = bases`), for a window `lo < hi` holding a CDS position whose expansion does not run past the last
+    complete codon, the returned locations are the codons having at least one position inside the window. -/
+theorem expandWindowCodons (c : CDS) (h : WFCDS c)
+    (hstart : c.start = locStartMin c.loc) (hend : c.«end» = locEndMax c.loc.blocks)
+    (hplain : cdsKept c.loc (specFrames c) = bases c.loc)
+    (hshallow : shallowTrim (exonWalk c.loc (specFrames c)) = true)
+    (hcase : c.loc.blocks.length > 1 ∨ ∃ e, c.loc.blocks = [e] ∧ c.frames = [.ZERO])
+    (lo hi : Nat) (hw : lo < hi)
+    (hseq : ∀ s, c.seq = some s → hi ≤ s.length ∧ locEndMax c.loc.blocks ≤ s.length)
+    (hsome : (bases c.loc).filter (inW lo hi) ≠ [])
+    (htail : 3 * ((((bases c.loc).filter (beforeW c.loc.strand lo hi)).length +
+        ((bases c.loc).filter (inW lo hi)).length + 2) / 3) ≤ (bases c.loc).length) :
+    okCodons (specOf c) (some ⟨some (lo : Int), some (hi : Int), true⟩)
+      (ans (scanChromosomeCodonLocations c (some ⟨some (lo : Int), some (hi : Int), true⟩))) = true := by
+  obtain ⟨Bf, In, Af, hsplit, hBfdef, hB, hI, hA, hInne, hev⟩ :=
+    expand_eval c h hstart hend lo hi hw (fun s hs => (hseq s hs).1) hsome
+  have hInlen : ((bases c.loc).filter (inW lo hi)).length = In.length := by
+    rw [hsplit, List.filter_append, List.filter_append, filter_nil_of_forall _ _ hB, filter_nil_of_forall _ _ hA,
+      List.filter_eq_self.mpr hI]
+    simp
+  rw [← hBfdef, hInlen] at htail
+  obtain ⟨s, e, heval, hse, hele, c1, c2, c3⟩ := hev htail
+  generalize hK : bases c.loc = K at *
+  generalize hd : Bf.length = d at *
+  generalize hm : In.length = m at *
+  generalize ha : d - d % 3 = a at *
+  generalize hb : 3 * ((d + m + 2) / 3) = b at *
+  have hmpos : 0 < m := by rw [← hm]; exact List.length_pos_iff.mpr hInne
+  have hab : a < b := by omega
+  -- the expanded window holds kept positions
+  have hslice_ne : (K.drop a).take (b - a) ≠ [] := by
+    intro h0
+    have := congrArg List.length h0
+    simp only [List.length_take, List.length_drop, List.length_nil] at this
+    omega
+  have hsome' : (cdsKept c.loc (specFrames c)).filter (inW s e) ≠ [] := by
+    rw [hplain]
+    obtain ⟨x, hx⟩ := List.exists_mem_of_ne_nil _ hslice_ne
+    intro h0
+    have hxK : x ∈ K := List.mem_of_mem_drop (List.mem_of_mem_take hx)
+    have : x ∈ K.filter (inW s e) := List.mem_filter.mpr ⟨hxK, c2 x hx⟩
+    rw [h0] at this; simp at this
+  have hseq' : ∀ sq, c.seq = some sq → e ≤ sq.length := fun sq hsq => by
+    have := (hseq sq hsq).2; omega
+  -- the plain window [s, e)
+  have hplainwin : okCodons (specOf c) (some ⟨some (s : Int), some (e : Int), false⟩)
+      (ans (scanChromosomeCodonLocations c (some ⟨some (s : Int), some (e : Int), false⟩))) = true := by
+    rcases hcase with hmulti | ⟨ex, hone, hf⟩
+    · exact windowCodons_multi c h hmulti hshallow s e hse hseq' hsome'
+    · exact windowCodons_single c h ex hone hf s e hse hseq' hsome'
+  rw [scan_expand_eq c lo hi s e heval]
+  -- same expected list
+  cases hans : scanChromosomeCodonLocations c (some ⟨some (s : Int), some (e : Int), false⟩) with
+  | error er => rw [hans] at hplainwin; simp [okCodons] at hplainwin
+  | ok ms =>
+    rw [hans] at hplainwin
+    simp only [ans_ok, okCodons, expectCodons, specOf, CDSIn.codons, cdsCodons, Win.lo, Win.hi, windowCodons]
+      at hplainwin ⊢
+    rw [spec_window_fun, hplain] at hplainwin
+    have hfun : (fun cod : List Nat => if True then cod.any (inWin (lo : Int) (hi : Int))
+        else cod.all (inWin (lo : Int) (hi : Int))) = (fun t => t.any (inW lo hi)) := by
+      funext cod
+      simp only [if_true]
+      congr 1
+      funext p
+      exact inWin_eq_inW lo hi p
+    rw [hfun, hplain]
+    have hP : ∀ j (hj : j < K.length), inW lo hi K[j] = (decide (d ≤ j) && decide (j < d + m)) := by
+      intro j hj
+      have := getElem_three_parts Bf In Af (inW lo hi) hB hI hA j (by rw [← hsplit]; exact hj)
+      rw [hd, hm] at this
+      rw [← this]
+      congr 1
+      exact (List.getElem_of_eq hsplit hj)
+    have hKs : K = K.take a ++ (K.drop a).take (b - a) ++ (K.drop a).drop (b - a) := by
+      rw [List.append_assoc, List.take_append_drop, List.take_append_drop]
+    have hQ : ∀ j (hj : j < K.length), inW s e K[j] = (decide (a ≤ j) && decide (j < b)) := by
+      intro j hj
+      have := getElem_three_parts (K.take a) ((K.drop a).take (b - a)) ((K.drop a).drop (b - a)) (inW s e)
+        c1 c2 c3 j (by rw [← hKs]; exact hj)
+      have hl1 : (K.take a).length = a := by rw [List.length_take]; omega
+      have hl2 : ((K.drop a).take (b - a)).length = b - a := by
+        rw [List.length_take, List.length_drop]; omega
+      rw [hl1, hl2] at this
+      have hba : a + (b - a) = b := by omega
+      rw [hba] at this
+      rw [← this]
+      congr 1
+      exact (List.getElem_of_eq hKs hj)
+    rw [triples_any_eq_all K (inW lo hi) (inW s e) d m a b hP hQ ha.symm hb.symm hmpos]
+    exact hplainwin
 
 end BioCantor.Proofs
